@@ -30,6 +30,7 @@ struct Tr<'a> {
     modnum: HashMap<String, usize>,
     declnum: HashMap<(usize, String), usize>,
     rec_seq: usize,
+    rec_tags: Vec<String>,
     unsupported: Option<String>,
 }
 
@@ -269,6 +270,7 @@ impl<'a> Tr<'a> {
             self.rec_seq += 1;
             let i = self.rec_seq;
             let b = self.intern(r.binding().ident().as_ref());
+            self.rec_tags.push(format!("({} {} {})", m, i, tag_sx(&oal_compiler::tree::get_tag(node))));
             let e = self.expr(r.rhs());
             format!("(10 {} {} {} {})", m, i, b, e)
         } else {
@@ -464,6 +466,29 @@ impl<'a> Tr<'a> {
     }
 }
 
+fn tag_sx(t: &oal_compiler::verif::Tag) -> String {
+    use oal_compiler::verif::Tag;
+    match t {
+        Tag::Text => "(0 0)".to_owned(),
+        Tag::Number => "(0 1)".to_owned(),
+        Tag::Status => "(0 2)".to_owned(),
+        Tag::Primitive => "(0 3)".to_owned(),
+        Tag::Relation => "(0 4)".to_owned(),
+        Tag::Object => "(0 5)".to_owned(),
+        Tag::Content => "(0 6)".to_owned(),
+        Tag::Transfer => "(0 7)".to_owned(),
+        Tag::Array => "(0 8)".to_owned(),
+        Tag::Uri => "(0 9)".to_owned(),
+        Tag::Any => "(0 10)".to_owned(),
+        Tag::Property(t) => format!("(1 {})", tag_sx(t)),
+        Tag::Func(f) => {
+            let bs = f.bindings.iter().map(tag_sx).collect();
+            format!("(2 {} {})", list(bs), tag_sx(&f.range))
+        }
+        Tag::Var(_) => "(3 0)".to_owned(),
+    }
+}
+
 fn status(s: &atom::HttpStatus) -> String {
     match s {
         atom::HttpStatus::Code(c) => format!("(0 {})", c),
@@ -538,6 +563,7 @@ fn one(files: &HashMap<String, String>, main: &str) -> Value {
         modnum: HashMap::new(),
         declnum: HashMap::new(),
         rec_seq: 0,
+        rec_tags: Vec::new(),
         unsupported: None,
     };
     for k in KEYS {
@@ -562,11 +588,14 @@ fn one(files: &HashMap<String, String>, main: &str) -> Value {
         }
     }
     let mut ms = Vec::new();
+    let mut sigs = Vec::new();
     for t in trees.iter() {
         match syn::Program::cast(t.root()) {
             Some(p) => {
                 let ds: Vec<String> = p.declarations().map(|d| tr.decl(d)).collect();
                 ms.push(list(ds));
+                let ts: Vec<String> = p.declarations().map(|d| tag_sx(&oal_compiler::tree::get_tag(d.node()))).collect();
+                sigs.push(list(ts));
             }
             None => {
                 tr.fail("module root is not a program");
@@ -580,6 +609,7 @@ fn one(files: &HashMap<String, String>, main: &str) -> Value {
         }
     }
     let prog = format!("({} {})", list(ms), list(rs));
+    let tenv = format!("({} {})", list(sigs), list(tr.rec_tags.clone()));
     if let Some(why) = tr.unsupported.clone() {
         return json!({"status": "unsupported", "why": why});
     }
@@ -599,7 +629,7 @@ fn one(files: &HashMap<String, String>, main: &str) -> Value {
             format!("(2 {})", panic_site(&msg))
         }
     };
-    json!({"status": "ok", "prog": prog, "result": result, "strings": tr.strings, "nmods": locs.len()})
+    json!({"status": "ok", "prog": prog, "tenv": tenv, "result": result, "strings": tr.strings, "nmods": locs.len()})
 }
 
 pub fn run() {
